@@ -52,6 +52,7 @@ type Task struct {
 	spawnSite   string
 	blockedReal string // last site before a real blocking op, for diagnostics
 	pcount      map[string]uint32
+	atomic      int // >0: inside Atomic: scheduling points are skipped
 }
 
 // Policy is a schedule policy.
@@ -431,8 +432,87 @@ func (t *Task) Leave() {
 	s.poke()
 }
 
+// Atomic runs f without any scheduling point for the calling task: used around calls into uninstrumented code that
+// holds a real lock while calling back into instrumented code (a bbolt transaction invoking the load handler) -
+// parking there would block other tasks on that real lock, which the scheduler cannot see.
+func Atomic(f func()) {
+	s := current.Load()
+	var t *Task
+	if s != nil && !s.dead.Load() {
+		t = s.me()
+	}
+	if t == nil {
+		f()
+		return
+	}
+	t.atomic++
+	defer func() { t.atomic-- }()
+	f()
+}
+
+func atomicEnterNoYield() func() {
+	s := current.Load()
+	var t *Task
+	if s != nil && !s.dead.Load() {
+		t = s.me()
+	}
+	if t == nil {
+		return func() {}
+	}
+	t.atomic++
+	return func() { t.atomic-- }
+}
+
+// Atomic0 wraps the body of a sync.Once / sync.OnceFunc: no scheduling point inside.
+func Atomic0(f func()) func() {
+	return func() {
+		defer atomicEnterNoYield()()
+		f()
+	}
+}
+
+// Atomic1 wraps the body of a sync.OnceValue.
+func Atomic1[T any](f func() T) func() T {
+	return func() T {
+		defer atomicEnterNoYield()()
+		return f()
+	}
+}
+
+// Atomic2 wraps the body of a sync.OnceValues.
+func Atomic2[T1, T2 any](f func() (T1, T2)) func() (T1, T2) {
+	return func() (T1, T2) {
+		defer atomicEnterNoYield()()
+		return f()
+	}
+}
+
+// AtomicEnter starts an atomic section of the calling task (after one scheduling point) and returns the function
+// that ends it.
+func AtomicEnter(site string) func() {
+	s := current.Load()
+	var t *Task
+	if s != nil && !s.dead.Load() {
+		t = s.me()
+	}
+	if t == nil {
+		return func() {}
+	}
+	if t.atomic == 0 {
+		s.park(t, stParked, site)
+	}
+	t.atomic++
+	return func() { t.atomic-- }
+}
+
 // park marks t parked in the given state and blocks until the scheduler wakes it.
 func (s *Sim) park(t *Task, st taskState, site string) {
+	if t.atomic > 0 {
+		if st != stParked {
+			panic("simrt: task would block on " + site + " inside an Atomic section")
+		}
+		return
+	}
 	s.mu.Lock()
 	t.state = st
 	t.site = site
